@@ -47,6 +47,7 @@ structure RCase where
   flags : List String          -- `x_defined = true`
   continues : Bool             -- `opt_save` = own label: following data lines come back to this case
   useLast : Bool               -- sets `useLastLine = true` (re-examine the line that ended the sub-reader)
+  clobbers : List String := [] -- `if (this->x) this->y = false;` after the read: members cleared when the value read is true
   deriving DecidableEq, Repr
 
 structure ClassTab where
@@ -161,6 +162,25 @@ def continuationOk (t : ClassTab) : Bool :=
     match resolve t k with
     | some c => c.continues
     | none => false
+
+/-- the member cleared by a case that reads a true value: (reading key, cleared member) pairs of a table -/
+def clobberPairs (t : ClassTab) : List (String × String) :=
+  t.written.flatMap fun k => match resolve t k, fieldOf k with
+    | some c, some m => c.clobbers.map fun y => (m, y)
+    | _, _ => []
+
+/-- conditional clearing only occurs as MUTUAL exclusion of two flags that are both written (`dissolve_only` /
+`precipitate_only`): `x` clears `y` exactly when `y` clears `x` -/
+def clobbersMutual (t : ClassTab) : Bool :=
+  (clobberPairs t).all fun p => (clobberPairs t).contains (p.2, p.1) &&
+    (t.written.filterMap fieldOf).contains p.1 && (t.written.filterMap fieldOf).contains p.2
+
+/-- reader of two mutually exclusive flags written in the order `a`, `b`: each line stores its value and, when true, clears
+the other flag -/
+def readExclusive (a b : Bool) : Bool × Bool :=
+  let s1 : Bool × Bool := (a, false)                           -- fresh flags are false; line `a` stores a and, if true, clears b
+  let s2 : Bool × Bool := (if b then false else s1.1, b)       -- line `b`
+  s2
 
 /-- each key prints at most one member (or a constant) and its case feeds at most one member -/
 def singleField (t : ClassTab) : Bool :=
